@@ -185,6 +185,11 @@ func c03Render(events []int, names []string) (string, bool) {
 			case 8:
 				// several variables declared by one statement
 				b.WriteString(K["var"] + " " + names[0] + " = " + fresh() + ", " + names[1] + " = " + fresh() + ";\n")
+			case 9:
+				// a read whose value is not used: a statement that is just the name
+				b.WriteString(names[0] + ";\n")
+			case 10:
+				b.WriteString("(" + names[1] + ");\n")
 			case 7:
 				// a for header declaring several variables with one declaration list
 				b.WriteString(K["for"] + " (" + K["var"] + " " + names[0] + " = " + fresh() + ", " + names[1] + " = " + fresh() + "; " + True() + "; ) {\n")
@@ -202,7 +207,7 @@ func c03Run(c *Ctx) {
 	// the Bangla name ends in precomposed U+09DF, which NFC rewrites: bindings
 	// are keyed by spelling, so every operation must treat it consistently
 	names := []string{"ক\u09df", "a"}
-	nEv := 4*len(names) + 9
+	nEv := 4*len(names) + 11
 	maxLen := c.N(5, 6)
 	ev := make([]int, 0, maxLen)
 	var rec func()
@@ -315,6 +320,10 @@ func c03Handwritten() []string {
 		// redeclaration in the same scope, undefined read, undefined assignment
 		Lines(Var("a", "1"), Print("a"), Var("a", "2"), Print("a")),
 		Lines(Print("1"), Print("q")), Lines(Print("1"), "q = 2;", Print("3")),
+		// a read whose value is not used is still a read
+		Lines(Print("1"), "q;", Print("3")), Lines(Print("1"), "(q);", Print("3")), Lines("{ "+Var("t", "1")+" t; }", "t;", Print("3")),
+		Lines(Fun("g", "", " loc; "+Print(`"in g"`)+" "), Fun("f", "", " "+Var("loc", "5")+" loc; g(); "), "f();", Print("3")),
+		Lines(For(Var("i", "0"), "i < 1", "i = i + 1", "{ i; }"), "((i));", Print("3")), Lines("u;", Var("u", "1"), Print("u")),
 		Lines("{", Var("a", "1"), "}", Print("a")),
 		// a callee never sees its caller's locals
 		Lines(Fun("g", "", " "+Print("loc")+" "), Fun("f", "", " "+Var("loc", "5")+" g(); "), "f();"),
@@ -357,7 +366,7 @@ func c03Handwritten() []string {
 func init() {
 	register(&CheckDef{
 		ID:   "C03",
-		Rule: "programs: every balanced history of length <=5 (quick) / <=6 (thorough) over 17 events {declare n = fresh, declare n, assign n, read n} x 2 colliding names + {open block, open for-header declaring the name, open for-header declaring both names in one declaration list, a declaration list binding both names, open function taking the name as parameter, close, call f}, each assigned value a unique integer; hand-written programs for every clause of the statement; seeded random larger programs (<=40 statements, depth <=3, names from a 3-name pool, closures, loops, planted faults). Each execution of the real interpreter (with scope hooks on) is compared with refborno's scope model on stdout, first diagnostic (category, name, line) and exit status, and the hook trace is checked by a model-free scope-chain invariant. Non-trivial = distinct program with >=1 shadowing declaration and >=1 read/assignment resolved at scope distance >=1 (counted by the model).",
+		Rule: "programs: every balanced history of length <=5 (quick) / <=6 (thorough) over 19 events {declare n = fresh, declare n, assign n, read n} x 2 colliding names + {a read that is a whole statement (`n;`, `(n);`), open block, open for-header declaring the name, open for-header declaring both names in one declaration list, a declaration list binding both names, open function taking the name as parameter, close, call f}, each assigned value a unique integer; hand-written programs for every clause of the statement; seeded random larger programs (<=40 statements, depth <=3, names from a 3-name pool, closures, loops, planted faults). Each execution of the real interpreter (with scope hooks on) is compared with refborno's scope model on stdout, first diagnostic (category, name, line) and exit status, and the hook trace is checked by a model-free scope-chain invariant. Non-trivial = distinct program with >=1 shadowing declaration and >=1 read/assignment resolved at scope distance >=1 (counted by the model).",
 		Assumptions: []string{"declaring a name in a scope after a closure that mentions it was created beneath that scope is out of domain (the property's own exclusion), detected dynamically by the model", "redeclaring the function's own name or a parameter with ধরি at function-body level, and ফাংশন redeclaring an existing name in the same scope, are out of domain"},
 		Run:         c03Run,
 		Judge:       c03Judge,
@@ -437,6 +446,10 @@ func c03CertainFault(ev []int, names []string) bool {
 				}
 				stack[len(stack)-1].vars[names[0]] = true
 				stack[len(stack)-1].vars[names[1]] = true
+			case 9, 10:
+				if inFun == 0 && !has(names[e-4*nn-9]) {
+					return true
+				}
 			}
 		}
 	}
